@@ -209,7 +209,7 @@ SeqCombos ==
 (* does not.  An advertisement names pools, selects pools by label, selects *)
 (* nodes by their zone label; all other attributes are identical.           *)
 CfgZones == { [n \in NodeNames |-> IF n = "n2" THEN "b" ELSE "a"], [n \in NodeNames |-> "a"] }
-CfgAdvSpecs == [pools : SUBSET {"p1", "p2"}, psel : {"", "gold", "silver"}, nsel : {<<>>, <<"a">>, <<"b">>, <<"a", "b">>}]
+CfgAdvSpecs == [pools : SUBSET {"p1", "p2"}, psel : {"", "gold", "silver"}, nsel : {<<>>, <<"a">>, <<"b">>, <<"a", "b">>, <<"b", "a">>}]
 
 CfgSelectsP1(a) == "p1" \in a.pools \/ a.psel = "gold" \/ (a.pools = {} /\ a.psel = "")
 CfgNodes(a, zones) == IF a.nsel = <<>> THEN NodeNames ELSE {n \in NodeNames : zones[n] \in ERange(a.nsel)}
